@@ -53,6 +53,10 @@ THEOREMS = [
     "Nix.C20.idInv_after_copy",
     "Nix.C20.independent_history",
     "Nix.C20.independent_history_observed",
+    "Nix.C20.sourceSideInv_after_copy",
+    "Nix.C20.idInv_source_side",
+    "Nix.C20.independent_history_source_side",
+    "Nix.C20.independent_history_copy_unchanged",
     "Nix.C20.reachable_file_ok",
     "Nix.C20.reachable_entity_has_id",
     "Nix.C20.independent_delete_old_side",
@@ -84,7 +88,8 @@ MANIFEST = {
                   "distinct (groups and datasets alike), the supplied name is used, an existing name is refused, every "
                   "old node is unchanged except for the one new link in the destination container, the final state of a "
                   "shallow section copy (properties re-added in order), and independence for every history of API calls "
-                  "made on the copy's side (invariants SideInv / IdInv) - for every source graph, source node, "
+                  "made on the copy's side or on the source's side (one frame theorem for histories on a link-closed "
+                  "side; invariants SideInv / IdInv) - for every source graph, source node, "
                   "destination file, both id policies, same-file and cross-file. Tied to the code (a) by an ast "
                   "translator that renders H5Group.copy (rename, id regeneration, guards of the id visitor) and the "
                   "eight copy entry points as data, with theorems that the interpretation of the generated shapes is the "
@@ -95,7 +100,8 @@ MANIFEST = {
                   "correspondence harness; H5Ocopy semantics are modelled, not verified; dataset contents are checked by "
                   "the implementation-side oracle only. Partial: deletion is global by entity_id (open finding shared "
                   "with C04; repair proposed in reports/C20-delete-by-object.*); history-level independence is proved "
-                  "for calls on the copy's side, the converse direction per kind of call.",
+                  "for histories of calls on either side whose entity arguments lie on that side (source side: destination "
+                  "container outside the source sub-graph).",
     "technique": "Lean 4 model + theorems (graph isomorphism, invariants over histories), ast translator to generated "
                  "shape definitions, differential correspondence, implementation-side property oracle",
 }
